@@ -230,3 +230,56 @@ def norm(s):
     if len(s) == 0 or s[0] != "/":
         s = "/" + s
     return s
+
+
+# ---------------------------------------------------------------------------- C01
+def secure(s):
+    """The selector filter as the property states it: none of ./ .. // .\\ \\\\ NUL anywhere."""
+    return ("./" not in s and ".." not in s and "//" not in s and ".\\" not in s
+            and "\\\\" not in s and "\0" not in s)
+
+
+def no_dotdot(p):
+    """No path component of p is '..' (lexical)."""
+    return not (p == ".." or p.startswith("../") or p.endswith("/..") or "/../" in p)
+
+
+def safe_sel(p):
+    """A selector-space path that may be handed to a file-system sink: absolute in selector space,
+    no '..' component, no NUL."""
+    return p.startswith("/") and no_dotdot(p) and "\0" not in p
+
+
+def abs_root(root):
+    """The configured document root is an absolute path without '..' components; either '/' (chroot)
+    or not ending in '/'."""
+    return root.startswith("/") and no_dotdot(root) and "\0" not in root and (root == "/" or not root.endswith("/"))
+
+
+def fspath_of(root, selector):
+    """root + selector with one trailing slash dropped."""
+    if selector.endswith("/"):
+        return root + selector[:-1]
+    if selector == "" and root.endswith("/"):
+        return root[:-1]
+    return root + selector
+
+
+def under(root, p):
+    """p is root itself or lexically below it, with no '..' component anywhere: without symlinks
+    leaving the root the operating system resolves p inside the root."""
+    if p == root:
+        return True
+    if root == "/":
+        return p.startswith("/") and no_dotdot(p) and "\0" not in p
+    return p.startswith(root + "/") and no_dotdot(p) and "\0" not in p
+
+
+def url_shape(s):
+    """Selectors of the URL redirect convention."""
+    return re.search("^(/|)URL:.+://", s) is not None
+
+
+def child_name_ok(name):
+    """A directory entry name as the operating system returns it: non-empty, no '/', no NUL, not '.' or '..'."""
+    return name != "" and "/" not in name and "\0" not in name and name != "." and name != ".."
